@@ -31,7 +31,7 @@ import sys
 sys.path.insert(0, os.path.dirname(os.path.abspath(__file__)))
 import rustlex as R
 
-DIRECTIVE = re.compile(r'^\s*//@@\s+(FN|STRUCT|ENUM|STATIC|CONST|END)\b(.*)$')
+DIRECTIVE = re.compile(r'^\s*//@@\s+(FN|SIG|STRUCT|ENUM|STATIC|CONST|END)\b(.*)$')
 TAGS = re.compile(r'//@\s*\[\s*(C\d+(?:\s*,\s*C\d+)*)\s*\]\s*$')
 
 
@@ -271,6 +271,83 @@ def fn_item_text(text, toks, it):
     return text[toks[it.start].pos:toks[it.end - 1].end]
 
 
+def signature_of(toks, what):
+    """(list of (param name, type text), return type text) of the first fn in the token list; spec-only result naming
+    `-> (r: T)` is read as `-> T`; `mut` binding modifiers and `self` forms are kept as names"""
+    T = [t.text for t in toks]
+    k = T.index('fn')
+    i = k + 2
+    if T[i] == '<':     # generics
+        d = 0
+        while True:
+            if T[i] == '<': d += 1
+            elif T[i] == '>': d -= 1
+            elif T[i] == '>>': d -= 2
+            i += 1
+            if d <= 0: break
+    if T[i] != '(': raise ExtractError('%s: cannot find the parameter list' % what)
+    c = R.match_close(toks, i)
+    params = []; cur = []; d = 0
+    for t in T[i + 1:c]:
+        if t in ('(', '[', '{', '<'): d += 1
+        elif t in (')', ']', '}', '>'): d -= 1
+        elif t == '>>': d -= 2
+        if t == ',' and d == 0:
+            if cur: params.append(cur)
+            cur = []
+        else: cur.append(t)
+    if cur: params.append(cur)
+    sig = []
+    for pr in params:
+        if pr and pr[0] == 'mut': pr = pr[1:]
+        if ':' in pr:
+            j = pr.index(':'); sig.append((' '.join(pr[:j]), ' '.join(pr[j + 1:])))
+        else: sig.append((' '.join(pr), ''))
+    ret = ''
+    j = c + 1
+    if j < len(T) and T[j] == '->':
+        j += 1; r = []; d = 0
+        while j < len(T):
+            t = T[j]
+            if d == 0 and t in ('where', '{', 'requires', 'ensures', ';'): break
+            if t in ('(', '[', '<'): d += 1
+            elif t in (')', ']', '>'): d -= 1
+            elif t == '>>': d -= 2
+            r.append(t); j += 1
+        if len(r) >= 4 and r[0] == '(' and r[2] == ':' and r[-1] == ')': r = r[3:-1]    # (r: T)
+        ret = ' '.join(r)
+    return sig, ret
+
+
+def process_sig(repo, args, mirror_text):
+    """An ASSUMED contract (external_body stub) standing for a function of /repo whose contract is proved in another unit or
+    checked by another back end. The stub text is emitted as written; what is checked on every run is that its parameter
+    names, their order, their types and the return type are those of the current source: a caller is verified against THIS
+    contract, so it must at least be about the function that is really called."""
+    rel, owner, name = args['file'], args.get('owner', '-'), args['name']
+    text, toks, it = locate(repo, rel, 'fn', owner, name)
+    src_fn = fn_item_text(text, toks, it)
+    try:
+        mt = [t for t in R.lex(mirror_text, markers=True) if not t.ann]
+    except R.LexError as e:
+        raise ExtractError('cannot lex stub of %s: %s' % (name, e))
+    what = '%s::%s in %s' % (owner, name, rel)
+    ssig, sret = signature_of(R.lex(src_fn), what)
+    msig, mret = signature_of(mt, 'stub of ' + what)
+    loose = args.get('types', '') == 'loose'
+    if [n for n, _ in ssig] != [n for n, _ in msig]:
+        raise ExtractError('assumed contract of %s: parameters are (%s) in the source but (%s) in the contract' % (what, ', '.join(n for n, _ in ssig), ', '.join(n for n, _ in msig)))
+    if not loose:
+        for (n, ts), (_, tm) in zip(ssig, msig):
+            if ts.replace(' ', '') != tm.replace(' ', ''):
+                raise ExtractError('assumed contract of %s: parameter %s has type %s in the source but %s in the contract' % (what, n, ts, tm))
+        if sret.replace(' ', '') != mret.replace(' ', ''):
+            raise ExtractError('assumed contract of %s: return type %s in the source but %s in the contract' % (what, sret or '()', mret or '()'))
+    info = dict(file=rel, owner=owner, name=name, status='signature-checked' + (' (names and order only)' if loose else ''), source_line=toks[it.start].line if hasattr(toks[it.start], 'line') else 0,
+                source_tokens=0, inserted_tokens=0, rewrites=[])
+    return mirror_text, info
+
+
 def process_fn(repo, args, mirror_text):
     rel, owner, name = args['file'], args.get('owner', '-'), args['name']
     text, toks, it = locate(repo, rel, 'fn', owner, name)
@@ -372,7 +449,7 @@ def assemble(template_path, repo):
         if kind == 'END': raise ExtractError('stray END at template line %d' % (i + 1))
         args = parse_kv(rest)
         body = []
-        if kind in ('FN', 'STRUCT', 'ENUM'):
+        if kind in ('FN', 'SIG', 'STRUCT', 'ENUM'):
             j = i + 1
             while j < len(lines) and not (DIRECTIVE.match(lines[j]) and DIRECTIVE.match(lines[j]).group(1) == 'END'):
                 if DIRECTIVE.match(lines[j]): raise ExtractError('nested directive at template line %d' % (j + 1))
@@ -383,6 +460,7 @@ def assemble(template_path, repo):
             nxt = i + 1
         mirror = '\n'.join(body)
         if kind == 'FN': text, info = process_fn(repo, args, mirror)
+        elif kind == 'SIG': text, info = process_sig(repo, args, mirror)
         elif kind == 'STRUCT': text, info = process_def(repo, 'struct', args, mirror)
         elif kind == 'ENUM': text, info = process_def(repo, 'enum', args, mirror)
         elif kind == 'STATIC': text, info = process_static(repo, args)
